@@ -403,3 +403,49 @@ Proof.
   - intros f idx H. eapply parsed_pdomains_ok; eauto.
   - now apply parsed_text_coherent.
 Qed.
+
+(* ---- multiplicity: every storage index is reported at most once by the shortcut table ---- *)
+Lemma nodup_snoc {A} (l : list A) (x : A) : NoDup l -> ~ In x l -> NoDup (l ++ [x]).
+Proof.
+  induction l as [|a l IH]; intros H Hn; cbn; [constructor; [intros []|constructor]|].
+  inversion H as [|? ? Ha Hl]; subst. constructor.
+  - intro Hin. apply in_app_or in Hin as [Hin|[<-|[]]]; [exact (Ha Hin) | apply Hn; now left].
+  - apply IH; [exact Hl | intro Hx; apply Hn; now right].
+Qed.
+
+Section NoDupIdx.
+Variable hash : bytes -> N.
+Variable psl : bytes -> bytes * bool.
+Variable retr : Z -> option net_rule.
+Variable e : net_engine.
+Variable q : request.
+
+Definition sc_in (res : list (Z * net_rule)) (idx : Z) : list (Z * net_rule) :=
+  match retr idx with
+  | None => res
+  | Some f => if existsb (fun x => Z.eqb (fst x) idx) res || negb (rmatch psl f q) then res else res ++ [(idx, f)]
+  end.
+
+Lemma sc_in_nodup res idx : NoDup (map fst res) -> NoDup (map fst (sc_in res idx)).
+Proof.
+  intro H. unfold sc_in. destruct (retr idx) as [f|]; [|exact H].
+  destruct (existsb (fun x => Z.eqb (fst x) idx) res) eqn:E; cbn [orb]; [exact H|].
+  destruct (negb (rmatch psl f q)); [exact H|].
+  rewrite map_app. cbn [map fst]. apply nodup_snoc; [exact H|].
+  intro Hin. apply in_map_iff in Hin as ([i g] & Hi & Hg). cbn [fst] in Hi. subst i.
+  assert (existsb (fun x => Z.eqb (fst x) idx) res = true) by (apply existsb_exists; exists (idx, g); split; [exact Hg | apply Z.eqb_refl]).
+  congruence.
+Qed.
+
+(* every storage index is reported at most once by the shortcut table, whatever the URL repeats *)
+Theorem match_shortcuts_nodup : NoDup (map fst (match_shortcuts hash psl retr e q)).
+Proof.
+  unfold match_shortcuts.
+  assert (Hin : forall l res, NoDup (map fst res) -> NoDup (map fst (fold_left sc_in l res))).
+  { induction l as [|i l IH]; intros res H; cbn [fold_left]; [exact H | apply IH, sc_in_nodup, H]. }
+  assert (Hout : forall ws res, NoDup (map fst res) ->
+            NoDup (map fst (fold_left (fun res w => fold_left sc_in (bucket (ne_shortcuts e) (hash w)) res) ws res))).
+  { induction ws as [|w ws IH]; intros res H; cbn [fold_left]; [exact H | apply IH, Hin, H]. }
+  apply (Hout (windows (rq_url_lower q)) []). constructor.
+Qed.
+End NoDupIdx.
